@@ -7,7 +7,7 @@
    argument kind) by the fingerprint differential of harness/props/c20.py.  The copy-then-modify
    theorems are about the mechanism transpose / unfold_part_maximal use ("deep copy before
    modification"), for every argument kind. *)
-From PV Require Import Lib.Base Model.C20 Proofs.C20.
+From PV Require Import Lib.Base Model.C20 Model.C20_Mut Model.C20_Alias Model.C20_Array Proofs.C20 Proofs.C20_Mut Proofs.C20_Alias Proofs.C20_Array.
 From Coq Require Import ZArith List Permutation.
 Import ListNotations.
 
@@ -226,3 +226,178 @@ Theorem cow_ok_meaning : forall (k : akind) (before after res1 res2 : list Z),
   cow_ok (k, before, after, res1, res2) = true -> after = before /\ res1 = res2.
 Proof. exact cow_ok_meaning_lemma. Qed.
 Print Assumptions cow_ok_meaning.
+
+(* ---------------------------------------------------------------------------------------------- *)
+(* The container as a mutable object (Model/C20_Mut.v): construction (Score.__init__, iter_parts),
+   item assignment (Score.__setitem__ / Performance.__setitem__) and the protocol afterwards. *)
+
+(* iter_parts yields exactly the depth-first leaves of a Part / PartGroup tree (dfs is the
+   specification, stated without flat_map), and nothing else does *)
+Theorem iter_parts_depth_first : forall (A : Type) (t : ptree A),
+  dfs t (iter_tree t) /\ forall l, dfs t l -> l = iter_tree t.
+Proof. exact @iter_parts_depth_first_lemma. Qed.
+Print Assumptions iter_parts_depth_first.
+
+(* Score.__init__: for every argument it accepts (a Part, a PartGroup, a list / tuple of both, nested
+   to any depth) the parts are the depth-first leaves of the structure it stores; only other
+   arguments raise *)
+Theorem score_init_parts_structure : forall (A : Type) (a : partlist_arg A),
+  match score_init a with
+  | Some c => dfs_list (m_struct c) (m_parts c) /\ m_parts c = flat_map iter_tree (m_struct c) /\
+              m_struct c = match a with ArgPart x => [PLeaf x] | ArgGroup cs => [PGroup cs] | ArgList ts => ts | ArgOther => [] end
+  | None => a = ArgOther
+  end.
+Proof. exact @score_init_spec. Qed.
+Print Assumptions score_init_parts_structure.
+
+(* c[i] = x: IndexError exactly outside -len..len-1 (nothing changes); otherwise the length is kept,
+   c[i] is x afterwards and every other position -- also through negative indices -- is as before *)
+Theorem setitem_index_spec : forall (A : Type) (l : list A) (i : Z) (x : A),
+  let n := Z.of_nat (length l) in
+  match py_set l i x with
+  | None => ~ (- n <= i < n)%Z
+  | Some l' => (- n <= i < n)%Z /\ length l' = length l /\ py_index l' i = Some x /\
+               forall j, ((j - i) mod n <> 0)%Z -> py_index l' j = py_index l j
+  end.
+Proof. exact @setitem_spec. Qed.
+Print Assumptions setitem_index_spec.
+
+(* iteration, len and indexing -- any history, any number of live iterators -- leave the container
+   (parts AND structure) as it was and answer as the immutable model over its current parts *)
+Theorem readonly_protocol_leaves_container : forall (A : Type) (h : list op) (c : mcont A) (cs : cursors),
+  mrun FromParts (c, cs) (map MO h) = map MR (run_fresh (m_parts c) cs h) /\
+  mfinal FromParts (c, cs) (map MO h) = (c, final (fresh_step (m_parts c)) cs h).
+Proof. exact @mrun_readonly. Qed.
+Print Assumptions readonly_protocol_leaves_container.
+
+(* After ANY history h1 (item assignments, iterators, len, indexing, interleaved at will) an iteration
+   bound now, however interleaved with other iterators / len / indexing (h2), yields exactly the parts
+   P the container holds now, in index order, each once, then StopIteration; len and indexing in h2
+   answer for the same P; P = the initial parts with the successful assignments of h1 applied, and
+   len never changes. *)
+Theorem consistent_after_any_history : forall (A : Type) (c : mcont A) (cs : cursors) (h1 : list (mop A)) (k : nat) (h2 : list op),
+  no_iter k h2 = true ->
+  let P := apply_sets (m_parts c) h1 in
+  let rs := skipn (S (length h1)) (mrun FromParts (c, cs) (h1 ++ MO (Iter k) :: map MO h2)) in
+  mpick k h2 rs = map MR (map RYield (firstn (count_next k h2) P) ++ repeat RStop (count_next k h2 - length P)) /\
+  Forall2 (len_index_spec P) h2 (map unMR rs) /\
+  length P = length (m_parts c).
+Proof. exact @consistent_after_any_history_lemma. Qed.
+Print Assumptions consistent_after_any_history.
+
+(* The seeded slip (iteration walks iter_parts(part_structure), len / indexing / assignment use parts):
+   on every container whose parts are the leaves of its structure -- every freshly constructed one --
+   it answers every assignment-free history exactly as the code ... *)
+Theorem structure_iteration_agrees_until_set : forall (A : Type) (h : list op) (c : mcont A) (cs : cursors),
+  m_parts c = flat_map iter_tree (m_struct c) ->
+  mrun FromStructure (c, cs) (map MO h) = mrun FromParts (c, cs) (map MO h).
+Proof. exact @structure_iteration_agrees_until_set_lemma. Qed.
+Print Assumptions structure_iteration_agrees_until_set.
+
+(* ... and differs after one item assignment (list(c) = [1, 2] next to c[1] = 9), and on a container
+   whose parts were replaced as a whole (the Score unfold_part_maximal / minimal return). Witnesses. *)
+Theorem structure_iteration_refuted :
+  (exists (a : partlist_arg Z) (c : mcont Z),
+      score_init a = Some c /\
+      mrun FromParts (c, []) (MSet 1 9%Z :: list_then_index)
+      = [MSetDone; MR RIter; MR (RYield 1%Z); MR (RYield 9%Z); MR RStop; MR (RItem 1%Z); MR (RItem 9%Z); MR (RLen 2)] /\
+      mrun FromStructure (c, []) (MSet 1 9%Z :: list_then_index)
+      = [MSetDone; MR RIter; MR (RYield 1%Z); MR (RYield 2%Z); MR RStop; MR (RItem 1%Z); MR (RItem 9%Z); MR (RLen 2)]) /\
+  (exists c : mcont Z,
+      m_parts c <> flat_map iter_tree (m_struct c) /\
+      mrun FromStructure (c, []) list_then_index <> mrun FromParts (c, []) list_then_index).
+Proof. exact structure_iteration_refuted_lemma. Qed.
+Print Assumptions structure_iteration_refuted.
+
+(* the correspondence checker accepts whatever the model answers (masking stale iterators loses
+   nothing) and, on histories without item assignment, accepts ONLY what the model answers *)
+Theorem mcheck_sound : forall (h : list (mop Z)) (st : mstate Z) (gen : nat) (born : cursors),
+  born_bound born (snd st) -> mcheck st gen born h (mrun FromParts st h) = true.
+Proof. exact mcheck_sound_lemma. Qed.
+Print Assumptions mcheck_sound.
+
+Theorem mcheck_meaning : forall (h : list (mop Z)) (st : mstate Z) (gen : nat) (born : cursors) (obs : list (mres Z)),
+  no_set h = true -> born_at gen born -> mcheck st gen born h obs = true -> obs = mrun FromParts st h.
+Proof. exact mcheck_meaning_lemma. Qed.
+Print Assumptions mcheck_meaning.
+
+(* ---------------------------------------------------------------------------------------------- *)
+(* Shallow copy + reference replacement (Model/C20_Alias.v): the mechanism of unfolding a Part
+   (ScoreVariant.create_variant_part: copy(o), o_map, replace_refs). *)
+
+(* THE ARGUMENT IS LEFT AS IT WAS: for every heap and every selection of objects to copy, after all
+   copies were made and all their references replaced every object (all attributes) and every list
+   (all elements) that existed before is unchanged, and all copies are new objects *)
+Theorem variant_preserves_argument : forall (h : aheap) (sel : list nat),
+  extends h (fst (variant FreshList h sel)) /\
+  Forall (fun p : nat * nat => (length (h_objs h) <= snd p)%nat) (snd (variant FreshList h sel)) /\
+  map fst (snd (variant FreshList h sel)) = sel.
+Proof. exact variant_preserves_argument_lemma. Qed.
+Print Assumptions variant_preserves_argument.
+
+(* after replace_refs no list attribute of the object is a list that existed before the call: the
+   copy shares no list with the original any more *)
+Theorem replace_refs_unshares : forall (m : omap) (h : aheap) (o : nat), (o < length (h_objs h))%nat ->
+  length (obj_get (replace_refs FreshList m h o) o) = length (obj_get h o) /\
+  Forall (attr_fresh (length (h_lists h))) (obj_get (replace_refs FreshList m h o) o).
+Proof. exact replace_refs_unshares_lemma. Qed.
+Print Assumptions replace_refs_unshares.
+
+(* writing the replaced elements INTO the list the attribute holds is refuted: the list shared with
+   the original is rewritten (finite witness), while the code's fresh list leaves the same heap alone *)
+Theorem inplace_replace_refuted :
+  exists (h : aheap) (sel : list nat),
+    ~ extends h (fst (variant InPlaceList h sel)) /\
+    list_get (fst (variant InPlaceList h sel)) 0 <> list_get h 0 /\
+    extends h (fst (variant FreshList h sel)).
+Proof. exact inplace_replace_refuted_lemma. Qed.
+Print Assumptions inplace_replace_refuted.
+
+(* the checker run on heaps observed on real Note / Slur / Tuplet objects accepts only the heap the
+   model computes -- in which the argument is unchanged *)
+Theorem alias_ok_meaning : forall (h : aheap) (sel : list nat) (h' : aheap),
+  alias_ok (h, sel, h') = true -> h' = fst (variant FreshList h sel) /\ extends h h'.
+Proof. exact alias_ok_meaning_lemma. Qed.
+Print Assumptions alias_ok_meaning.
+
+(* ---------------------------------------------------------------------------------------------- *)
+(* Array views that copy (Model/C20_Array.v): slice_notearray_by_time selects with an index array (a new
+   buffer) and then WRITES the clipped onsets / durations into its result. *)
+
+(* THE ARGUMENT IS LEFT AS IT WAS: for every clipping function, every set of buffers, every array (view)
+   into them, every window and flag, all buffers that existed before the call keep all their rows, and
+   the result lives in a new buffer *)
+Theorem slice_copy_preserves_argument : forall (w : list Z -> list Z) (bs : buffers) (a : ndarr) (start stop : Z) (clip : bool),
+  firstn (length bs) (fst (slice TakeCopy w bs a start stop clip)) = bs /\
+  a_buf (snd (slice TakeCopy w bs a start stop clip)) = length bs.
+Proof. exact slice_copy_preserves_argument_lemma. Qed.
+Print Assumptions slice_copy_preserves_argument.
+
+(* without clipping the result holds exactly the active rows of the argument (starting inside the window,
+   or before it and still sounding), in the argument's order -- whichever way the rows are taken *)
+Theorem slice_rows_spec : forall (m : take_mode) (w : list Z -> list Z) (rows : list (list Z)) (start stop : Z),
+  let a := mk_ndarr 0 (seq 0 (length rows)) in
+  rows_of (fst (slice m w [rows] a start stop false)) (snd (slice m w [rows] a start stop false))
+  = filter (active start stop) rows.
+Proof. exact slice_rows_spec_lemma. Qed.
+Print Assumptions slice_rows_spec.
+
+(* taking the rows as a VIEW (note_array[lo:hi]) is refuted: clipping then rewrites the caller's rows
+   (finite witness); the same call with the copy, and the view without clipping, leave them alone *)
+Theorem slice_view_refuted :
+  exists (w : list Z -> list Z) (rows : list (list Z)) (start stop : Z),
+    let a := mk_ndarr 0 (seq 0 (length rows)) in
+    buf_get (fst (slice TakeView w [rows] a start stop true)) 0 <> rows /\
+    buf_get (fst (slice TakeCopy w [rows] a start stop true)) 0 = rows /\
+    buf_get (fst (slice TakeView w [rows] a start stop false)) 0 = rows.
+Proof. exact slice_view_refuted_lemma. Qed.
+Print Assumptions slice_view_refuted.
+
+(* the checker run on real note arrays accepts only observations in which the argument is as before, the
+   slice has one row per active note and -- without clipping -- exactly the active rows *)
+Theorem slice_ok_meaning : forall (rows : list (list Z)) (start stop : Z) (clip : bool) (res after : list (list Z)),
+  slice_ok (rows, start, stop, clip, res, after) = true ->
+  after = rows /\ (clip = false -> res = filter (active start stop) rows) /\
+  length res = length (filter (active start stop) rows).
+Proof. exact slice_ok_meaning_lemma. Qed.
+Print Assumptions slice_ok_meaning.
